@@ -164,7 +164,13 @@ class C06(Prop):
                    "a file is its byte string; fseeko/fread past the end is a short read; allocation never fails",
                    "little-endian host, sizeof(off_t) = 8 (the configuration of this build)",
                    "esl_newssi_AddAlias's documented precondition (the target is a registered primary key) is a hypothesis of the lookup theorems",
-                   "keys are non-empty NUL-free strings without TAB/newline (the property's quantifier: printable non-blank)"]
+                   "keys are non-empty NUL-free strings without TAB/newline (the property's quantifier: printable non-blank)",
+                   "covered C functions: esl_newssi_AddFile/SetSubseq/AddKey/AddAlias/Write/Close, current_newssi_size, activate_external_sort, parse_pkey, parse_skey, "
+                   "pkeysort, skeysort, esl_ssi_Open/FindName/FindNumber/FindSubseq/FileInfo/Close, binary_search, esl_byteswap, esl_hton*/ntoh*, esl_fwrite_u16/u32/u64/i64/offset, "
+                   "esl_fread_u16/u32/u64/i64/offset; from easel.c esl_FileTail, esl_strtok, esl_fgets (as 'read a line'), esl_strdup",
+                   "not covered: esl_newssi_Open's overwrite protection, eslEMEM/eslEWRITE/eslESYS paths, indices large enough (>= 2 GB) to switch to the external sort by themselves "
+                   "(the switch is forced through max_ram), 32-bit off_t hosts, corrupt index files beyond esl_ssi_Open's header and file-record parse",
+                   "esl_ssi_FindSubseq is modelled with the repaired range test (requested_start < 1 rejected, DESIGN section 7 item 11); start = 0 is not generated"]
     rule = ("cases = index build histories (files, keys, aliases, optional switch to external sort at a chosen point) + write + reopen + lookups "
             "of stored keys, aliases, near-miss probes, numbers, file handles; non-trivial = a written index with >= 1 successful lookup; distinct by output trace")
     quick_budget_s = 90
@@ -237,6 +243,8 @@ class C06(Prop):
                 base = kg.rand(1, 8, LETTERS) + b"/" + base
             if rng.random() < 0.15:
                 base = b"/" + kg.rand(1, 30, LETTERS + b"/") + b"/" + base
+            if rng.random() < 0.04:
+                base = rng.choice([base + b"/", b"/", b"//", b"./" + base, b"../" + base + b"//"])   # empty tail
             files.append((base, rng.choice([0, 1, 2, 4, 7, 101, 2**31 - 1, rng.randrange(0, 1000)])))
         subseq = []
         for fh in range(nfiles):
@@ -251,12 +259,16 @@ class C06(Prop):
         aliases = [(a, rng.choice(keys)[0]) for a in al]
         ops = []
         if mode in ("dupP", "dupA"):
+            pick = lambda lst: rng.choice([min(lst), max(lst), rng.choice(lst), rng.choice(lst)])   # smallest / largest / any
             if mode == "dupP" and keys:
-                d = rng.choice(keys)
-                keys.insert(rng.randrange(len(keys) + 1), (d[0], rng.randrange(nfiles), off(rng), off(rng), off(rng)))
+                d = pick(keys)
+                where = rng.choice([0, len(keys), rng.randrange(len(keys) + 1)])
+                keys.insert(where, (d[0], rng.randrange(nfiles), off(rng), off(rng), off(rng)))
+                if rng.random() < 0.2:      # a triple
+                    keys.insert(rng.randrange(len(keys) + 1), (d[0], rng.randrange(nfiles), off(rng), off(rng), off(rng)))
             elif aliases:
-                d = rng.choice(aliases)
-                aliases.insert(rng.randrange(len(aliases) + 1), (d[0], rng.choice(keys)[0]))
+                d = pick(aliases)
+                aliases.insert(rng.choice([0, len(aliases), rng.randrange(len(aliases) + 1)]), (d[0], rng.choice(keys)[0]))
             else:
                 mode = "int"
         n_adds = len(keys) + len(aliases)
@@ -358,6 +370,16 @@ class C06(Prop):
         c.append({"name": "dup-alias-external", "sticky": 1, "ops": [
             "new", "addfile name=%s fmt=1" % hx(b"f"), "addkey k=%s fh=0 r=1 d=2 L=3" % hx(b"k1"), "external", "addkey k=%s fh=0 r=4 d=5 L=6" % hx(b"k2"),
             "addalias a=%s k=%s" % (hx(b"al"), hx(b"k1")), "addalias a=%s k=%s" % (hx(b"al"), hx(b"k2")), "write", "open"]})
+        # argument checks of the Add* calls: rejected calls leave the index unchanged
+        c.append({"name": "rejected-calls", "sticky": 1, "ops": [
+            "new", "addfile name=%s fmt=2" % hx(b"p/q"), "setsubseq fh=1 bpl=61 rpl=60", "setsubseq fh=0 bpl=0 rpl=60", "setsubseq fh=0 bpl=61 rpl=0",
+            "setsubseq fh=0 bpl=61 rpl=60", "addkey k=%s fh=32767 r=1 d=2 L=3" % hx(b"bad"), "addkey k=%s fh=65535 r=1 d=2 L=3" % hx(b"bad2"),
+            "addkey k=%s fh=0 r=10 d=20 L=130" % hx(b"good"), "external", "addkey k=%s fh=40000 r=1 d=2 L=3" % hx(b"bad3"),
+            "addkey k=%s fh=0 r=11 d=0 L=5" % hx(b"good2"), "addalias a=%s k=%s" % (hx(b"al"), hx(b"good")), "write", "open",
+            "find k=%s" % hx(b"bad"), "find k=%s" % hx(b"bad2"), "find k=%s" % hx(b"bad3"), "find k=%s" % hx(b"good"), "find k=%s" % hx(b"good2"), "find k=%s" % hx(b"al"),
+            "subseq k=%s start=1" % hx(b"good"), "subseq k=%s start=60" % hx(b"good"), "subseq k=%s start=61" % hx(b"good"), "subseq k=%s start=130" % hx(b"good"),
+            "subseq k=%s start=131" % hx(b"good"), "subseq k=%s start=3" % hx(b"good2"), "subseq k=%s start=121" % hx(b"al"), "subseq k=%s start=1" % hx(b"nope"),
+            "findnum i=0", "findnum i=1", "findnum i=2", "fileinfo fh=0", "close"]})
         # the known cross-class duplicate (DESIGN §7 item 14): Write does not notice alias == primary key
         c.append({"name": "cross-class-duplicate", "sticky": 1, "known_key": KNOWN_CROSS, "ops": [
             "new", "addfile name=%s fmt=1" % hx(b"f"), "addkey k=%s fh=0 r=1 d=2 L=3" % hx(b"k1"), "addkey k=%s fh=0 r=4 d=5 L=6" % hx(b"k2"),
@@ -396,6 +418,7 @@ class C06(Prop):
             st["nkeys"].append(nkeys); st["nalias"].append(nalias); st["nfiles"].append(nfiles); st["ops"] += len(case["ops"])
         for c in range(40 if quick else 400):
             out.append(self.gen_malformed(rng, "malformed%d" % c))
+        self.stats["malformed"] = sum(1 for c in out if c["name"].startswith("malformed"))
         return out
 
     # ------------------------------------------------------------------ oracle on the implementation's output
@@ -435,11 +458,15 @@ class C06(Prop):
                 files_full.append((nm, int(a["fmt"])))
             elif name == "setsubseq":
                 if int(a["fh"]) >= len(files) or int(a["bpl"]) == 0 or int(a["rpl"]) == 0:
-                    return None     # ill-formed history (only a shrunk case can get here)
+                    if st != "einval": return fail("SetSubseq with an invalid argument answered %r" % l)
+                    continue
                 if st != "ok": return fail("SetSubseq answered %r" % l)
                 subseq[int(a["fh"])] = (int(a["bpl"]), int(a["rpl"]))
             elif name == "addkey":
-                if int(a["fh"]) >= len(files): return None
+                if int(a["fh"]) >= 32767:
+                    if st != "einval": return fail("AddKey with an invalid file handle answered %r" % l)
+                    continue
+                if int(a["fh"]) >= len(files): return None      # unregistered handle: outside AddKey's precondition
                 if st != "ok": return fail("AddKey answered %r" % l)
                 pk.append((unhx(a["k"]), int(a["fh"]), int(a["r"]), int(a["d"]), int(a["L"])))
             elif name == "addalias":
@@ -558,7 +585,7 @@ class C06(Prop):
             return {"min": v[0], "median": v[len(v) // 2], "p95": v[int(len(v) * 0.95)], "max": v[-1]} if v else {}
         return {"input_distribution": {"build_modes": st["modes"], "primary_keys_per_index": q(st["nkeys"]), "aliases_per_index": q(st["nalias"]),
                                        "files_per_index": q(st["nfiles"]), "total_ops": st["ops"],
-                                       "malformed_index_cases": 40 if ctx.tier == "quick" else 400,
+                                       "malformed_index_cases": st.get("malformed", 0),
                                        "key_families": "independent / shared prefix / prefix chain / last-byte variants / punctuation around TAB-space / lengths 198-200",
                                        "offsets": "boundary values 0,1,2^31-1,2^31,2^32-1,2^32,2^53,2^62,2^63-1 + uniform 63-bit + small"}}
 
